@@ -449,7 +449,9 @@ func raceCorpus(s *sharedState, yield bool) []raceOp {
 		p := p
 		ops = append(ops, raceOp{"call shared " + p, func() string { return resString(shared[p](s.big)) }})
 	}
-	for _, p := range []string{`$.l[?(@.a == 3)]`, `$..*`, `$.l[*].a.sum()`, `$.x[`, `$.l[?(@.a.nosuch())]`, `$[?(1 < 2)]`, `$.m['q','r']`, `[?(@.a)]`} {
+	for _, p := range []string{`$.l[?(@.a == 3)]`, `$..*`, `$.l[*].a.sum()`, `$.x[`, `$.l[?(@.a.nosuch())]`, `$[?(1 < 2)]`, `$.m['q','r']`, `[?(@.a)]`,
+		// Parse while parsed functions are being called: every way a slice can be spelled (omitted bounds, explicit empty step)
+		`$.l[0:2:]`, `$.l[::]`, `$.l[1::]`, `$.l[:2:1]`, `$.l[::-1]`, `$..[0:1:]`} {
 		p := p
 		ops = append(ops, raceOp{"Retrieve " + p, func() string { return resString(jsonpath.Retrieve(p, s.big, cfg)) }})
 		ops = append(ops, raceOp{"Retrieve(no config) " + p, func() string { return resString(jsonpath.Retrieve(p, s.big)) }})
